@@ -185,7 +185,7 @@ Section Threshold.
   Theorem sk_split_bad_params sk t n seed :
     (n < t)%nat \/ (t < 2)%nat -> sk_split O sk t n seed = Val (Err VsssError).
   Proof.
-    intros H. unfold sk_split. destruct (Nat.ltb 255 n); [reflexivity|].
+    intros H. unfold sk_split, vsss_split_secret. destruct (Nat.ltb 255 n); [reflexivity|].
     destruct (Nat.ltb n t) eqn:E1; [reflexivity|].
     destruct (Nat.ltb t 2) eqn:E2; [reflexivity|].
     apply Nat.ltb_ge in E1, E2. lia.
@@ -201,7 +201,7 @@ Section Threshold.
     Val (if (n <=? 255)%nat then Ok (map (share_of (split_coeffs sk t seed)) (seqN 1 n))
          else Err VsssError).
   Proof.
-    intros H2 Htn Hnz. unfold sk_split.
+    intros H2 Htn Hnz. unfold sk_split, vsss_split_secret.
     destruct (Nat.ltb 255 n) eqn:E255.
     { apply Nat.ltb_lt in E255. replace (n <=? 255)%nat with false by (symmetry; apply Nat.leb_gt; lia).
       reflexivity. }
